@@ -550,6 +550,8 @@ func vspecCovered(x int64, start int64, c int64, size int64) bool {
 //@   results err
 //@   flag maypanic-typeassert
 //@   requires vdefProc(p) && vdefHdr(msg) && vdefQs(p) && p.sess.Cmsg != nil && !held(addr(p.sess.mu))
+//@   requires p.sess.topics != nil && p.sess.Pub1ack != p.sess.Pub2out && arr(p.sess.Pub1ack.ring) != arr(p.sess.Pub2out.ring) && p.sess.Pub1ack.emap != p.sess.Pub2out.emap
+//@   requires typeis(msg, *message.SubscribeMessage) ==> len(ifaceval(msg, *message.SubscribeMessage).topics) == len(ifaceval(msg, *message.SubscribeMessage).qos) && len(ifaceval(msg, *message.SubscribeMessage).topics) <= 30000
 //@   rely modifies p.out.pseq.cursor, p.out.pseq.gate, p.out.cseq.cursor, p.out.done, p.out.pwait, elems(p.out.buf)
 //@   rely ensures vdefRing(p.out) && arr(p.outtmp) != arr(p.out.buf)
 //@   atcall (*service).processAcked assumes unchanged(ifaceval(msg, *message.header).packetID)
@@ -561,7 +563,7 @@ func vspecCovered(x int64, start int64, c int64, size int64) bool {
 //@   ensures[C02:acks-only-on-request] !typeis(msg, *message.PubrelMessage) ==> gfield(p, "n7") == old(gfield(p, "n7"))
 //@   ensures[C12:acks-only-on-request] !typeis(msg, *message.PubrecMessage) ==> gfield(p, "n6") == old(gfield(p, "n6"))
 //@   ensures[C19:acks-only-on-request] !typeis(msg, *message.PingreqMessage) ==> gfield(p, "n13") == old(gfield(p, "n13"))
-//@   modifies modset(Callback), modset(Out), modset(AckQ), heap("GF.ncomp"), heap("GF.nlog"), p.subs, p.qoss, allelems(interface{}), modset(TopicStore), heap("GF.ndlv"), heap("GF.lastdlv"), heap("GF.decarr"), heap("GF.decoff"), heap("GF.declen"), ifaceval(msg, *message.header).remlen, ifaceval(msg, *message.header).dirty, ifaceval(msg, *message.header).packetID, p.sess.Cmsg.connectFlags, p.sess.Cmsg.dirty, gfield(p, "n4"), gfield(p, "id4"), gfield(p, "n5"), gfield(p, "id5"), gfield(p, "n6"), gfield(p, "id6"), gfield(p, "n7"), gfield(p, "id7"), gfield(p, "n9"), gfield(p, "id9"), gfield(p, "n11"), gfield(p, "id11"), gfield(p, "n13"), gfield(p, "id13"), gfield(p, "n3"), gfield(p, "id3"), p.rmsgs, modset(SessTopics), allelems(*message.PublishMessage), allfields(message.header), heap("GF.nsub"), heap("GF.subarr"), heap("GF.suboff"), heap("GF.sublen"), heap("GF.subreq"), heap("GF.subres"), heap("GF.nunsub"), heap("GF.unsubarr"), heap("GF.unsuboff"), heap("GF.unsublen")
+//@   modifies modset(Callback), modset(Out), modset(AckQ), heap("GF.ncomp"), heap("GF.nlog"), p.subs, p.qoss, allelems(interface{}), modset(TopicStore), heap("GF.ndlv"), heap("GF.lastdlv"), heap("GF.decarr"), heap("GF.decoff"), heap("GF.declen"), ifaceval(msg, *message.header).remlen, ifaceval(msg, *message.header).dirty, ifaceval(msg, *message.header).packetID, p.sess.Cmsg.connectFlags, p.sess.Cmsg.dirty, gfield(p, "n4"), gfield(p, "id4"), gfield(p, "n5"), gfield(p, "id5"), gfield(p, "n6"), gfield(p, "id6"), gfield(p, "n7"), gfield(p, "id7"), gfield(p, "n9"), gfield(p, "id9"), gfield(p, "n11"), gfield(p, "id11"), gfield(p, "n13"), gfield(p, "id13"), gfield(p, "n3"), gfield(p, "id3"), p.rmsgs, modset(SessTopics), allelems(*message.PublishMessage), allfields(message.header), allfields(message.PublishMessage), allfields(message.SubackMessage), heap("GF.nsub"), heap("GF.subarr"), heap("GF.suboff"), heap("GF.sublen"), heap("GF.subreq"), heap("GF.subres"), heap("GF.nunsub"), heap("GF.unsubarr"), heap("GF.unsuboff"), heap("GF.unsublen")
 
 // Session subscription list.
 //@ modset SessTopics allmaps(map[string]byte)
